@@ -117,6 +117,7 @@ type Exec struct {
 	lastDeadlineDelta *term.Term
 	timerChans        []*ChanV
 	timerDur          []*term.Term
+	timeAdvanced      int
 }
 
 func (x *Exec) unsupported(format string, a ...interface{}) {
